@@ -346,12 +346,14 @@ PROPS["C16"] = {
     "level": "model_checking",
     "technique": "explicit-state enumeration of the complete field GF(2^17) (every element through every unary operation and algorithm variant) and of tiny Koblitz/random binary curves over it (point-subset group law, every scalar in [-2n-3, 2n+3] through every routine) in the 8-bit-digit build, plus alphabet products for GF(2^283), NIST B-283 and K-283, against a shift-and-xor polynomial reference",
     "level_text": "Every one of the 131 072 elements of GF(2^17) through 3 squarers, 2 square-rooters, 8 inverters, 2 trace and 2 quadratic-solver routines, iterated squaring for every count 0..m+1, products with a structured alphabet through 3-4 multipliers in every alias pattern, every 3-byte string through the decoder. Four tiny curves over GF(2^17) (both Koblitz curves, two random ones; orders 2r / 4r with r prime by reference counting): all pairs of a 120-400 point list incl. the identity, the point of order two, opposite points and generator + 2-torsion in affine and Lopez-Dahab representations and alias patterns; halving on every listed point of odd order (2 hlv(P) = P, result in the subgroup), Frobenius = (x^2, y^2); every scalar in [-2n-3, 2n+3] through binary, Lopez-Dahab ladder, (tau-)w-NAF, regular (tau-)w-NAF, halving, generator, digit and four fixed-base routines; simultaneous forms over scalar alphabets and related base points. At 283 bits the same oracles run on alphabets for both NIST curves.",
-    "level_note": "Trusted: ref_gf2.h (shift-and-xor multiplication, Fermat inversion, affine binary-curve law); the library polynomial is asserted equal to the reference polynomial at start-up. fb2_* (quadratic extension) is not covered yet. Not reached: defects needing a specific 283-bit operand outside the alphabet with no 17-bit analogue.",
+    "level_note": "Trusted: ref_gf2.h (shift-and-xor multiplication, Fermat inversion, affine binary-curve law); the library polynomial is asserted equal to the reference polynomial at start-up. fb2_* (quadratic extension) is not covered yet. Not reached: defects needing a specific 283-bit operand outside the alphabet with no 17-bit analogue. The thorough tier repeats the 64-bit battery in builds with FB_POLYN = 163 and 233 (NIST B-/K-163, B-/K-233); m = 409 and 571 exceed the 5-word reference elements and are not built.",
     "rule": "cases are (operation group, operands/points/scalars) by odometer over the complete field / scalar ranges / point lists; all non-trivial; distinct by 64-bit hash; states = field elements visited in the complete space; transitions = individual routine results compared with the reference.",
     "assumptions": ["reference GF(2^m) and curve arithmetic in ref_gf2.h", "calls inside RLC_TRY"],
     "jobs": [
-        {"name": "fb-w8", "world": "W8", "src": "props/C16_fb.c", "share": 0.7},
-        {"name": "fb-w64", "world": "W64", "src": "props/C16_fb.c"},
+        {"name": "fb-w8", "world": "W8", "src": "props/C16_fb.c", "share": 0.7, "share_thorough": 0.55},
+        {"name": "fb-w64", "world": "W64", "src": "props/C16_fb.c", "share_thorough": 0.2},
+        {"name": "fb-w64-163", "world": "W64-fb163", "src": "props/C16_fb.c", "tiers": ("thorough",), "share": 0.1},
+        {"name": "fb-w64-233", "world": "W64-fb233", "src": "props/C16_fb.c", "tiers": ("thorough",), "share": 0.1},
     ],
 }
 
